@@ -182,10 +182,15 @@ type symModel struct {
 	committed map[string]bool
 	names     map[string]string // name -> "package" | "symbol"
 	exts      map[[2]string]bool
+	// which file (path) the table must name as the place of a symbol / an
+	// extension number: the file whose import registered it
+	nameOwner map[string]string
+	extOwner  map[[2]string]string
 }
 
 func newSymModel(pool *symPoolT) *symModel {
-	return &symModel{pool: pool, committed: map[string]bool{}, names: map[string]string{}, exts: map[[2]string]bool{}}
+	return &symModel{pool: pool, committed: map[string]bool{}, names: map[string]string{}, exts: map[[2]string]bool{},
+		nameOwner: map[string]string{}, extOwner: map[[2]string]string{}}
 }
 
 func (m *symModel) clone() *symModel {
@@ -198,6 +203,12 @@ func (m *symModel) clone() *symModel {
 	}
 	for k, v := range m.exts {
 		c.exts[k] = v
+	}
+	for k, v := range m.nameOwner {
+		c.nameOwner[k] = v
+	}
+	for k, v := range m.extOwner {
+		c.extOwner[k] = v
 	}
 	return c
 }
@@ -258,9 +269,11 @@ func (m *symModel) tryImport(name string) bool {
 	}
 	for _, s := range f.symbols {
 		m.names[s] = "symbol"
+		m.nameOwner[s] = f.fd.Path()
 	}
 	for _, e := range f.exts {
 		m.exts[e] = true
+		m.extOwner[e] = f.fd.Path()
 	}
 	m.committed[name] = true
 	return true
@@ -327,18 +340,26 @@ func execC17(t *testing.T, c C17Case) *Verdict {
 	failed := 0
 	compareAll := func(after string) *Verdict {
 		for _, n := range pool.universe {
-			got := syms.Lookup(protoreflect.FullName(n)) != nil
+			span := syms.Lookup(protoreflect.FullName(n))
+			got := span != nil
 			want := model.names[n] == "symbol"
 			if got != want {
 				return viol("C17/lookup-disagrees-with-model", "after %s: Lookup(%q) found=%v, but the files whose import succeeded %s it", after, n, got, map[bool]string{true: "define", false: "do not define"}[want])
+			}
+			if got && span.Start().Filename != model.nameOwner[n] {
+				return viol("C17/lookup-names-wrong-file", "after %s: Lookup(%q) points into %q, but the symbol was imported from %q", after, n, span.Start().Filename, model.nameOwner[n])
 			}
 		}
 		for _, e := range pool.exts {
 			var tag int
 			fmt.Sscan(e[1], &tag)
-			got := syms.LookupExtension(protoreflect.FullName(e[0]), protoreflect.FieldNumber(tag)) != nil
+			span := syms.LookupExtension(protoreflect.FullName(e[0]), protoreflect.FieldNumber(tag))
+			got := span != nil
 			if want := model.exts[e]; got != want {
 				return viol("C17/lookup-extension-disagrees-with-model", "after %s: LookupExtension(%s, %s) found=%v, model says %v", after, e[0], e[1], got, want)
+			}
+			if got && span.Start().Filename != model.extOwner[e] {
+				return viol("C17/lookup-extension-names-wrong-file", "after %s: LookupExtension(%s, %s) points into %q, but the number was registered by the import of %q", after, e[0], e[1], span.Start().Filename, model.extOwner[e])
 			}
 		}
 		return nil
